@@ -418,16 +418,17 @@ class CFG:
                 return True
         return False
 
-    def between(self, a: int, b: int, labels: Optional[set] = None) -> set:
-        """Nodes strictly inside some path a -> ... -> b (a and b excluded unless on a cycle)."""
+    def between(self, a: int, b: int, labels: Optional[set] = None, avoid: Iterable[int] = ()) -> set:
+        """Nodes strictly inside some path a -> ... -> b (a and b excluded unless on a cycle); paths through `avoid` do not count."""
+        avoid = set(avoid)
         fwd = set()
         for lbl, s in self.nodes[a].succ:
-            if labels is None or lbl in labels:
-                fwd |= self.reachable(s, (), labels)
+            if (labels is None or lbl in labels) and s not in avoid:
+                fwd |= self.reachable(s, avoid, labels)
         back = set()
         for lbl, p in self.nodes[b].pred:
-            if labels is None or lbl in labels:
-                back |= self.reachable(p, (), labels, forward=False)
+            if (labels is None or lbl in labels) and p not in avoid:
+                back |= self.reachable(p, avoid, labels, forward=False)
         return fwd & back
 
     # dominators --------------------------------------------------------
